@@ -334,3 +334,9 @@ class RendererHTML(RendererProtocol):
         self, tokens: Sequence[Token], idx: int, options: OptionsDict, env: EnvType
     ) -> str:
         return tokens[idx].content
+
+    def definition(
+        self, tokens: Sequence[Token], idx: int, options: OptionsDict, env: EnvType
+    ) -> str:
+        # reference definitions (``inline_definitions`` option) produce no output
+        return ""
